@@ -44,7 +44,7 @@ def gen_annotated(rnd, plain=False):
     a = start
     nent = rnd.randrange(1, 4)
     for ei in range(nent):
-        kind = rnd.choice('ccbbtswgu')
+        kind = rnd.choice('ccbbtswgu' if plain else 'ccbbtswgui')
         ea = a
         if ei == 0 and rnd.random() < 0.4:
             ctl.append('> %d ; header %s' % (ea, T(1, 4)))
